@@ -17,7 +17,7 @@ NAMES = {N: "in [0,len)", N1: "in [0,len]", T: "unbounded"}
 
 
 class RingSpec:
-    def __init__(self, name, rec, length, cursors, storages, strided=None, extra_len=None):
+    def __init__(self, name, rec, length, cursors, storages, strided=None, extra_len=None, rows=None):
         """rec: record name; length: field name (or None with extra_len a
         predicate on canonical strings); cursors: field names; storages:
         field names subscripted by element index; strided: {field: stride
@@ -29,6 +29,8 @@ class RingSpec:
         self.storages = set(storages)
         self.strided = strided or {}
         self.extra_len = extra_len
+        self.rows = set(rows or ())      # storages offset by whole rows: storage + idx
+        self.index_funcs = set()         # functions returning an index in [0, len) (or a negative error value the caller tests)
 
 
 def _is_field(fn, i, rec, fields):
@@ -45,6 +47,18 @@ def _is_len(fn, i, spec):
     if spec.extra_len is not None:
         return spec.extra_len(fn, j)
     return False
+
+
+def _cursor_field(fn, i, spec):
+    j = fn.strip(i)
+    nd = fn.nodes[j]
+    if nd["k"] == "Un" and nd.get("op") == "pre++":
+        # the value of ++cursor is the cursor's new value
+        j = fn.strip(nd["ch"][0])
+        nd = fn.nodes[j]
+    if nd["k"] == "Member" and nd.get("rec") == spec.rec and nd["field"] in spec.cursors:
+        return nd["field"]
+    return None
 
 
 def _local(fn, i):
@@ -67,7 +81,12 @@ def analyse(fn, spec):
             return dict(a)
         r = {}
         for v in set(a) | set(b):
-            r[v] = max(a.get(v, T), b.get(v, T))
+            if str(v).startswith("#nz:"):
+                if a.get(v) and b.get(v):
+                    r[v] = True
+                continue
+            dflt = N if str(v).startswith("#c:") else T
+            r[v] = max(a.get(v, dflt), b.get(v, dflt))
         return r
 
     def run_block(b, st, collect=None):
@@ -88,18 +107,29 @@ def analyse(fn, spec):
                     v = st.get(nd["decl"], T)
             elif k == "Member":
                 if nd.get("rec") == spec.rec and nd["field"] in spec.cursors:
-                    v = N
+                    v = st.get("#c:" + nd["field"], N)
             elif k == "Bin":
                 op = nd["op"]
                 a, c = nd["ch"]
                 if op == "%" and _is_len(fn, c, spec):
                     v = N
+                elif op == "-" and _is_len(fn, a, spec) and nodes[fn.strip(c)].get("v") == 1:
+                    v = N          # LEN - 1
+                elif op == "-" and nodes[fn.strip(c)].get("v") == 1:
+                    cf = _cursor_field(fn, a, spec)
+                    if cf is not None and st.get("#nz:" + cf) and st.get("#c:" + cf, N) == N:
+                        v = N      # cursor - 1 where cursor != 0 is known
                 elif op == "+":
                     va, vc = val.get(a, T), val.get(c, T)
                     one_a = nodes[fn.strip(a)].get("v") == 1 and nodes[fn.strip(a)]["k"] == "Int"
                     one_c = nodes[fn.strip(c)].get("v") == 1 and nodes[fn.strip(c)]["k"] == "Int"
                     if va == N and one_c or vc == N and one_a:
                         v = N1
+                    if collect is not None:
+                        for base, idx in ((a, c), (c, a)):
+                            bj = fn.strip(base)
+                            if nodes[bj]["k"] == "Member" and nodes[bj].get("rec") == spec.rec and nodes[bj]["field"] in spec.rows:
+                                collect.append({"node": e, "kind": "row-offset", "index": idx, "state": val.get(idx, T), "storage": nodes[bj]["field"]})
                     # pointer + index*stride into strided storage
                     if collect is not None:
                         for base, idx in ((a, c), (c, a)):
@@ -117,15 +147,29 @@ def analyse(fn, spec):
                                         collect.append({"node": e, "kind": "offset-nostride", "index": idx, "state": T, "storage": nodes[bj]["field"]})
                                 else:
                                     collect.append({"node": e, "kind": "offset-raw", "index": idx, "state": val.get(idx, T), "storage": nodes[bj]["field"], "raw": True})
+            elif k == "Call":
+                if nd.get("callee") in spec.index_funcs:
+                    v = N
             elif k == "Assign":
                 d = _local(fn, nd["ch"][0])
                 v = val.get(nd["ch"][1], T)
+                cf = _cursor_field(fn, nd["ch"][0], spec)
                 if d is not None and nodes[fn.strip(nd["ch"][0])]["k"] == "DeclRef":
                     st[d] = v
+                elif cf is not None:
+                    st["#c:" + cf] = v
+                    st.pop("#nz:" + cf, None)
             elif k == "CompoundAssign":
                 d = _local(fn, nd["ch"][0])
+                cf = _cursor_field(fn, nd["ch"][0], spec)
+                wrap = nd["op"] == "%=" and _is_len(fn, nd["ch"][1], spec)
                 if d is not None and nodes[fn.strip(nd["ch"][0])]["k"] == "DeclRef":
-                    st[d] = T
+                    st[d] = N if wrap else T
+                elif cf is not None:
+                    st["#c:" + cf] = N if wrap else T
+                    st.pop("#nz:" + cf, None)
+                    if collect is not None and not wrap:
+                        collect.append({"node": e, "kind": "cursor-advance", "index": e, "state": T, "storage": cf})
             elif k == "Var":
                 if nd["ch"]:
                     st[nd["decl"]] = val.get(nd["ch"][0], T)
@@ -141,7 +185,14 @@ def analyse(fn, spec):
                 op = nd["op"]
                 d = _local(fn, nd["ch"][0])
                 isvar = d is not None and nodes[fn.strip(nd["ch"][0])]["k"] == "DeclRef"
-                if op in ("post++", "pre++") and isvar:
+                cf = _cursor_field(fn, nd["ch"][0], spec)
+                if cf is not None and op in ("post++", "pre++"):
+                    old = st.get("#c:" + cf, N)
+                    new = N1 if old == N else T
+                    st["#c:" + cf] = new
+                    st.pop("#nz:" + cf, None)
+                    v = old if op == "post++" else new
+                elif op in ("post++", "pre++") and isvar:
                     old = st.get(d, T)
                     new = N1 if old == N else T
                     st[d] = new
@@ -151,7 +202,7 @@ def analyse(fn, spec):
                     v = T
             elif k == "Subscript":
                 base, idx = nd["ch"]
-                if _is_field(fn, base, spec.rec, spec.storages):
+                if _is_field(fn, base, spec.rec, spec.storages | spec.rows):
                     if collect is not None:
                         collect.append({"node": e, "kind": "subscript", "index": idx, "state": val.get(idx, T), "storage": nodes[fn.strip(base)]["field"]})
             val[e] = v
@@ -172,9 +223,28 @@ def analyse(fn, spec):
             a, c = c, a
             op = {"<": ">", ">": "<", "<=": ">=", ">=": "<="}.get(op, op)
         d = _local(fn, a)
+        cf = _cursor_field(fn, a, spec)
+        # cursor == 0 / != 0
+        if cf is not None and nodes[fn.strip(c)].get("v") == 0 and nodes[fn.strip(c)]["k"] == "Int" and op in ("==", "!="):
+            st = dict(st)
+            if (op == "!=" and pol) or (op == "==" and not pol):
+                st["#nz:" + cf] = True
+            return st
+        if d is None and cf is not None and _is_len(fn, c, spec):
+            d = "#c:" + cf
+        # grow guard: (var + X) >= LEN false  /  (var + X) < LEN true  (X >= 0 assumed)
+        if d is None and _is_len(fn, c, spec):
+            aj = fn.strip(a)
+            if nodes[aj]["k"] == "Bin" and nodes[aj]["op"] == "+":
+                for side in nodes[aj]["ch"]:
+                    dd = _local(fn, side)
+                    if dd is not None and ((op in (">=", ">") and not pol) or (op in ("<", "<=") and pol)):
+                        st = dict(st)
+                        st[dd] = N
+                        return st
         if d is None or not _is_len(fn, c, spec):
             return st
-        cur = st.get(d, T)
+        cur = st.get(d, T if not str(d).startswith("#c:") else N)
         st = dict(st)
         if (op == "<" and pol) or (op == ">=" and not pol):
             if cur in (N, N1):
@@ -216,7 +286,11 @@ def analyse(fn, spec):
     for b in cfg.blocks:
         if IN[b] is None:
             continue
-        run_block(b, IN[b], obligations)
+        out = run_block(b, IN[b], obligations)
+        if cfg.exit in cfg.succs[b]:
+            for k_, v_ in out.items():
+                if str(k_).startswith("#c:") and v_ != N:
+                    obligations.append({"node": cfg.blocks[b]["elems"][-1] if cfg.blocks[b]["elems"] else fn.root, "kind": "cursor-exit", "index": fn.root, "state": v_, "storage": k_[3:]})
     return obligations
 
 
